@@ -4,9 +4,17 @@ from rules import shapes_rules
 
 def run(m, tier):
     results = shapes_rules.c01_rules(m)
+    from rules import C02
+    for fn, rid in ((C02.r2_replace_map, "C01.R5"), (C02.r6_inverse_map, "C01.R6"), (C02.r7_restore_order, "C01.R7")):
+        rr_ = fn(m)
+        rr_.rule = rid
+        for f in rr_.findings:
+            f.rule = rid
+        results.append(rr_)
     expl = ("Decides structural necessary conditions of the round trip: every rule class that can build a node resolves a printer; the "
             "tuple arities each match can return (abstract interpretation of all return sites, following delegation to the generic "
             "engines with the call site's class arguments bound) are accepted by the resolved init and agree with the constant indices, "
             "%-format conversion counts, unpack counts and length guards of the resolved printer; every element that can hold a node "
-            "or input text is read by the printer. Does NOT decide equality of trees/text after re-parsing.")
+            "or input text is read by the printer; no child is built from placeholder-bearing text, the inverse replace map is bounded "
+            "and ordered, give-backs to the reader are reversed (shared with C02). Does NOT decide equality of trees/text after re-parsing.")
     return results, expl
